@@ -37,6 +37,9 @@ pub enum Mutation {
     Duplicate { member: usize, changed: bool, front: bool },
     /// rewrite `_type`
     TypeTag(String),
+    /// next to the n-th member insert a sibling whose name differs from it only by a character that
+    /// canonical JSON escapes (backslash or quote), carrying a changed value
+    InsertConfusable { member: usize, variant: u8, front: bool },
     /// serve this role's document where the other of {timestamp, snapshot} is expected
     RoleSwap,
 }
@@ -394,6 +397,38 @@ fn build(sc: &Sc) -> World {
             });
         }
         Mutation::TypeTag(t) => mutated.set("_type", s(t)),
+        Mutation::InsertConfusable { member, variant, front } => {
+            let c = count_members(&mutated).max(1);
+            let (variant, front) = (*variant, *front);
+            applied = with_member(&mut mutated, &mut 0, member % c, &mut |m, ix| {
+                let (k, mut v) = m[ix].clone();
+                let mut chars: Vec<char> = k.chars().collect();
+                let mid = chars.len() / 2;
+                match variant % 5 {
+                    0 => chars.insert(mid, '\\'),
+                    1 => chars.push('\\'),
+                    2 => chars.insert(0, '\\'),
+                    3 => chars.insert(mid, '"'),
+                    _ => {
+                        chars.insert(mid, '\\');
+                        chars.insert(mid, '\\');
+                    }
+                }
+                let k2: String = chars.into_iter().collect();
+                if m.iter().any(|(kk, _)| *kk == k2) {
+                    return;
+                }
+                if !mutate_scalar(&mut v, &mut 0, 0) {
+                    v = n(7);
+                }
+                if front {
+                    m.insert(0, (k2, v));
+                } else {
+                    m.push((k2, v));
+                }
+            });
+            applied = applied && mutated != original_signed;
+        }
         Mutation::RoleSwap => {}
     }
     doc.signed = mutated.clone();
@@ -436,13 +471,40 @@ fn build(sc: &Sc) -> World {
     World { shipped, files, original_signed, mutated_signed: mutated, level_class, applied }
 }
 
+const ATTEMPTS: usize = 10;
+
+impl C12 {
+    fn load_once(&self, w: &World, transport: &SimTransport, role: RoleT) -> Result<(u64, Value), (Class, String)> {
+        let shipped = w.shipped.clone();
+        let t2 = transport.clone();
+        block_on(async move {
+            match crate::world::load(&shipped, t2, None, crate::world::LoadOpts::default()).await {
+                Ok(repo) => {
+                    let v = match role {
+                        RoleT::Root => serde_json::to_value(&repo.root().signed),
+                        RoleT::Timestamp => serde_json::to_value(&repo.timestamp().signed),
+                        RoleT::Snapshot => serde_json::to_value(&repo.snapshot().signed),
+                        RoleT::Targets => serde_json::to_value(&repo.targets().signed),
+                        RoleT::Delegated => match repo.delegated_role("d1").and_then(|r| r.targets.as_ref()) {
+                            Some(t) => serde_json::to_value(&t.signed),
+                            None => Ok(Value::Null),
+                        },
+                    };
+                    Ok((repo.root().signed.version.get(), v.unwrap_or(Value::Null)))
+                }
+                Err(e) => Err((classify(&e), variant(&e))),
+            }
+        })
+    }
+}
+
 impl Check for C12 {
     type Scenario = Sc;
     fn id(&self) -> &'static str {
         "C12"
     }
     fn rule(&self) -> String {
-        "a validly signed foreign document of one role type (root, timestamp, snapshot, targets, delegated targets) carrying 0..3 unknown members at one struct-like object level (names incl. space, '!', quote, backslash, non-ASCII, prefix pairs) and optionally prefix-ordered target names; exactly one in-flight change: none, member re-ordering, whitespace, junk signature, scalar change / member insert / delete / duplicate at any position, _type rewrite, timestamp<->snapshot swap under a shared key; pins are version-only so signatures are the only defence; non-trivial = a mutation was applied to a document the client fetched, or unknown members were present; distinct = distinct canonical trace".into()
+        "a validly signed foreign document of one role type (root, timestamp, snapshot, targets, delegated targets) carrying 0..3 unknown members at one struct-like object level (names incl. space, '!', quote, backslash, non-ASCII, prefix pairs) and optionally prefix-ordered target names; exactly one in-flight change: none, member re-ordering, whitespace, junk signature, scalar change / member insert / delete / duplicate at any position, insertion of a sibling member whose name differs from an existing one only by a backslash or quote (content-changing mutations are loaded 10 times, worst attempt judged, because the client's maps are randomly seeded), _type rewrite, timestamp<->snapshot swap under a shared key; pins are version-only so signatures are the only defence; non-trivial = a mutation was applied to a document the client fetched, or unknown members were present; distinct = distinct canonical trace".into()
     }
     fn assumptions(&self) -> Vec<String> {
         vec![
@@ -461,7 +523,7 @@ impl Check for C12 {
         }
     }
     fn required_faults(&self, _t: Tier) -> Vec<&'static str> {
-        vec!["scalar_changed", "member_inserted", "member_deleted", "member_duplicated", "type_tag_rewritten", "role_swap", "reordered", "reformatted", "junk_signature", "unknown_members_present"]
+        vec!["scalar_changed", "confusable_member_inserted", "member_inserted", "member_deleted", "member_duplicated", "type_tag_rewritten", "role_swap", "reordered", "reformatted", "junk_signature", "unknown_members_present"]
     }
     fn required_probes(&self, _t: Tier) -> Vec<&'static str> {
         vec!["tampering_rejected", "benign_change_accepted", "exposed_content_equals_signed", "foreign_document_with_extras_accepted"]
@@ -478,7 +540,7 @@ impl Check for C12 {
                 extra_names.push(nm.to_string());
             }
         }
-        let mutation = match r.below(12) {
+        let mutation = match r.below(14) {
             0 | 1 => Mutation::None,
             2 => Mutation::Reorder,
             3 => Mutation::Whitespace,
@@ -488,7 +550,8 @@ impl Check for C12 {
             8 => Mutation::Delete(r.usize_below(4096)),
             9 => Mutation::Duplicate { member: r.usize_below(4096), changed: r.chance(2, 3), front: r.chance(1, 2) },
             10 => Mutation::TypeTag((*r.pick(&["root", "timestamp", "snapshot", "targets", "mirrors"])).to_string()),
-            _ => Mutation::RoleSwap,
+            11 => Mutation::RoleSwap,
+            _ => Mutation::InsertConfusable { member: r.usize_below(4096), variant: r.below(5) as u8, front: r.chance(1, 2) },
         };
         let role = if mutation == Mutation::RoleSwap { *r.pick(&[RoleT::Timestamp, RoleT::Snapshot]) } else { role };
         Sc { world: r.below(1_000_003), consistent: r.chance(1, 2), role, extra_level, extra_names, tricky_target_names: r.chance(1, 6), mutation }
@@ -542,27 +605,27 @@ impl Check for C12 {
                 Resp::not_found()
             }
         });
-        let shipped = w.shipped.clone();
-        let t2 = transport.clone();
         let role = sc.role;
-        let res = block_on(async move {
-            match crate::world::load(&shipped, t2, None, crate::world::LoadOpts::default()).await {
-                Ok(repo) => {
-                    let v = match role {
-                        RoleT::Root => serde_json::to_value(&repo.root().signed),
-                        RoleT::Timestamp => serde_json::to_value(&repo.timestamp().signed),
-                        RoleT::Snapshot => serde_json::to_value(&repo.snapshot().signed),
-                        RoleT::Targets => serde_json::to_value(&repo.targets().signed),
-                        RoleT::Delegated => match repo.delegated_role("d1").and_then(|r| r.targets.as_ref()) {
-                            Some(t) => serde_json::to_value(&t.signed),
-                            None => Ok(Value::Null),
-                        },
-                    };
-                    Ok((repo.root().signed.version.get(), v.unwrap_or(Value::Null)))
-                }
-                Err(e) => Err((classify(&e), variant(&e))),
+        let canon_orig = json::canon(&w.original_signed).expect("original canonicalises");
+        // The client keeps maps in randomly seeded hash tables, so whether a tampered document gets
+        // through may depend on an iteration order drawn per parse: a content-changing mutation is
+        // loaded several times and judged by the worst attempt. Only the aggregate is traced (on a
+        // tree where the property holds every attempt ends the same way).
+        let attempts = if matches!(sc.mutation, Mutation::None | Mutation::Reorder | Mutation::Whitespace | Mutation::JunkSignature | Mutation::RoleSwap) { 1 } else { ATTEMPTS };
+        let mut res = self.load_once(&w, &transport, role);
+        for _ in 1..attempts {
+            let bad = |r: &Result<(u64, Value), (Class, String)>| match r {
+                Ok((rv, exposed)) => (role != RoleT::Root || *rv == 2) && J::try_from_value(exposed).and_then(|j| json::canon(&j)).as_deref() != Some(&canon_orig[..]),
+                Err(_) => false,
+            };
+            if bad(&res) {
+                break;
             }
-        });
+            let again = self.load_once(&w, &transport, role);
+            if bad(&again) || (res.is_err() && again.is_ok()) {
+                res = again;
+            }
+        }
         let fetched = transport.log().iter().any(|l| match sc.role {
             RoleT::Root => l.rel == "2.root.json",
             RoleT::Timestamp => l.rel == "timestamp.json",
@@ -572,7 +635,6 @@ impl Check for C12 {
         });
         o.ev(format!("load={:?} fetched={fetched}", res.as_ref().map(|(v, _)| *v).map_err(|e| (e.0.name(), e.1.clone()))));
 
-        let canon_orig = json::canon(&w.original_signed).expect("original canonicalises");
         // The role tag is re-derived by the client from the place a document is used in (it does
         // not expose or act on the transmitted value), so a change confined to the top-level
         // `_type` member alters nothing the client uses: compare with the tag normalised. Clause
@@ -601,6 +663,7 @@ impl Check for C12 {
             Mutation::Delete(_) => "member-delete",
             Mutation::Duplicate { .. } => "member-duplicate",
             Mutation::TypeTag(_) => "type-tag",
+            Mutation::InsertConfusable { .. } => "confusable-member-insert",
             Mutation::RoleSwap => "role-swap",
         };
         // was the document under test accepted?
@@ -671,6 +734,7 @@ impl Check for C12 {
             match &sc.mutation {
                 Mutation::Scalar(_) => o.fault("scalar_changed"),
                 Mutation::Insert(_) => o.fault("member_inserted"),
+                Mutation::InsertConfusable { .. } => o.fault("confusable_member_inserted"),
                 Mutation::Delete(_) => o.fault("member_deleted"),
                 Mutation::Duplicate { .. } => o.fault("member_duplicated"),
                 Mutation::TypeTag(_) => o.fault("type_tag_rewritten"),
